@@ -425,8 +425,12 @@ class HttpParser(abc.ABC, Generic[_MsgT]):
 
                         assert self.protocol is not None
                         # calculate payload
+                        # Only a *response* to HEAD has no body; a HEAD request
+                        # is framed by its own Content-Length/Transfer-Encoding.
+                        # self.method is the request method on the response parser
+                        # and unset on the request parser.
                         empty_body = code in EMPTY_BODY_STATUS_CODES or bool(
-                            method and method in EMPTY_BODY_METHODS
+                            self.method and self.method in EMPTY_BODY_METHODS
                         )
                         if not empty_body and (
                             (length is not None and length > 0) or msg.chunked
